@@ -100,6 +100,7 @@ HARMLESS = [
     ('C13', 'sc3/seq/patterns/listpatterns.py', "                if wrap:\n                    for j in range(lval):\n                        inval = yield from stm.embed(\n                            lst[bi.mod(pos + j, size)], inval)\n                else:\n                    for j in range(lval):\n                        if 0 <= pos + j < size:\n                            inval = yield from stm.embed(\n                                lst[pos + j], inval)\n                        else:\n                            return inval\n", "                if not wrap:\n                    for j in range(lval):\n                        if 0 <= pos + j < size:\n                            inval = yield from stm.embed(\n                                lst[pos + j], inval)\n                        else:\n                            return inval\n                else:\n                    for j in range(lval):\n                        inval = yield from stm.embed(\n                            lst[bi.mod(pos + j, size)], inval)\n", 'Pslide: branches (each with its loop) exchanged under a negated test'),
     ('C13', 'sc3/seq/patterns/filterpatterns.py', "        trig = None\n        try:\n            while True:\n                trig = trig_stream.next(inval)\n                if trig:", "        flag = None\n        try:\n            while True:\n                flag = trig_stream.next(inval)\n                if flag:", 'Platch: local for the trigger renamed'),
     ('C02', 'sc3/synth/synthdef.py', "        if self._bytes is None:\n            stream = io.BytesIO()", "        if True:\n            stream = io.BytesIO()", 'as_bytes makes the bytes again every time (same bytes)'),
+    ('C01', 'sc3/synth/ugen.py', "        optimized_ugen = self._optimize_to_sum3()\n        # // create a Sum4 if possible\n        if not optimized_ugen:\n            optimized_ugen = self._optimize_to_sum4()", "        optimized_ugen = self._optimize_to_sum4()\n        # // create a Sum4 if possible\n        if not optimized_ugen:\n            optimized_ugen = self._optimize_to_sum3()", 'Sum4 rewrite tried before Sum3 (both preserve the meaning)'),
 ]
 
 BREAKING = [
@@ -236,6 +237,8 @@ BREAKING = [
     ('C17', 'sc3/synth/node.py', "        obj.node_id = obj.server._next_node_id() if node_id is None else node_id", "        obj.node_id = srv.Server.default._next_node_id() if node_id is None else node_id", 'node id taken from the default server instead of the node\'s own'),
     ('C18', 'sc3/base/_oscinterface.py', "        except:\n            _logger.error(\n                'Exception happened during processing '", "        except KeyError:\n            _logger.error(\n                'Exception happened during processing '", 'the receiver lets exceptions of the parser escape'),
     ('C18', 'sc3/base/_oscinterface.py', "            for timed_msg in packet.messages:", "            for timed_msg in packet.messages[1:]:", 'the first message of every packet is dropped'),
+    ('C01', 'sc3/synth/ugen.py', "        if self.operator == '+':\n            self._optimize_add()\n            return self\n        if self.operator == '-':\n            self._optimize_sub()", "        if self.operator == '+':\n            self._optimize_sub()\n            return self\n        if self.operator == '-':\n            self._optimize_add()", 'additions are sent to the subtraction rewrite and vice versa'),
+    ('C01', 'sc3/synth/ugen.py', "                input._descendants.add(replacement)\n                input._descendants.discard(self)", "                input._descendants.add(self)\n                input._descendants.discard(replacement)", 'after a rewrite the replaced unit stays a descendant and the replacement does not become one'),
 ]
 
 
